@@ -155,7 +155,8 @@ def wire_wopts(kind, wopts, kw):
     if kind == "legacy" and not lang:
         lang = None
     pos = [pos_code(wopts)] if kind == "single" else []
-    return [bool(rel), bool(fit), dims, ("s:" + lang) if lang is not None else None, pos]
+    inline = bool(wopts.get("write_inline_positioning")) and kind in ("dfxp", "single")
+    return [bool(rel), bool(fit), dims, ("s:" + lang) if lang is not None else None, pos, inline]
 
 
 def text_node_tree(text):
